@@ -86,7 +86,11 @@ def probe_norm(inp: Dict[str, Any]) -> Dict[str, Any]:
     D0 = torch.as_tensor(_rand_nac(rng, nmol, n, inp["coupling"], inp.get("spike")))
     D1 = torch.as_tensor(_rand_nac(rng, nmol, n, inp["coupling"], inp.get("spike")))
     defects = []
-    for nsub in (inp["nsub"], 2 * inp["nsub"]):
+    z = inp["dt"] / inp["nsub"] * (np.abs(D0.numpy()).max() + np.abs(D1.numpy()).max()) / 2 * n
+    asymptotic = z < 0.3
+    # outside the asymptotic regime (coupling spikes) the routine's own adaptive sub-step rule applies (substeps=None)
+    plan = (inp["nsub"], 2 * inp["nsub"]) if asymptotic else (None,)
+    for nsub in plan:
         dyn = _dyn(nmol, n, dt=inp["dt"])
         dyn._amp_phase = amp0.clone()
         dyn._propagate_electronic({"energies": E0, "nac_dot": D0}, {"energies": E1, "nac_dot": D1}, substeps=nsub)
@@ -94,12 +98,20 @@ def probe_norm(inp: Dict[str, Any]) -> Dict[str, Any]:
         defects.append(np.abs(pop.sum(1) - 1.0).max())
         hi = dyn._hop_integral.numpy()
     bad = []
-    z = inp["dt"] / inp["nsub"] * (np.abs(D0.numpy()).max() + np.abs(D1.numpy()).max()) / 2 * n
-    bound = 20.0 * inp["nsub"] * z ** 5 + 1e-13  # 4th-order scheme, non-autonomous coefficients: local norm defect O(h^5)
-    if defects[0] > bound:
-        bad.append(f"norm defect {defects[0]:.3e} exceeds the RK4 bound {bound:.2e} (z={z:.3f})")
-    if defects[0] > 1e-10 and defects[1] > defects[0] / 8.0:
-        bad.append(f"norm defect does not shrink with sub-steps as a 4th-order scheme: {defects[0]:.2e} -> {defects[1]:.2e}")
+    if asymptotic:
+        # 4th-order scheme with time-dependent phases exp(i E t/hbar): the local norm defect is O(h^5) in the combined small
+        # parameters z = |D| h and w = |E| h / hbar, and vanishes quadratically with the coupling
+        from seqm.NonadiabaticDynamics import HBAR_EV_FS
+        wph = float(max(E0.abs().max(), E1.abs().max())) * inp["dt"] / inp["nsub"] / HBAR_EV_FS
+        bound = 50.0 * inp["nsub"] * z ** 2 * (z + wph) ** 3 + 2e-13
+        if defects[0] > bound:
+            bad.append(f"norm defect {defects[0]:.3e} exceeds the RK4 bound {bound:.2e} (z={z:.3f})")
+        # order test only deep in the asymptotic regime (z < 0.1) where the leading h^4 term dominates: halving h must cut the defect by > 6
+        if z < 0.1 and defects[0] > 1e-10 and defects[1] > defects[0] / 6.0:
+            bad.append(f"norm defect does not shrink with sub-steps as a 4th-order scheme: {defects[0]:.2e} -> {defects[1]:.2e}")
+    else:
+        if defects[0] > 2e-2:
+            bad.append(f"norm defect {defects[0]:.3e} with the adaptive sub-step rule on a coupling spike (z per fixed sub-step would be {z:.2f})")
     if np.abs(hi + hi.transpose(0, 2, 1)).max() > 1e-12 * max(1.0, np.abs(hi).max()):
         bad.append("hop integral is not antisymmetric")
     return {"ok": not bad, "observed": bad or [f"defects {defects}"], "expected": "norm preserved to integrator order", "predicate": "", "fields": {"kinds": ["norm"] if bad else [], "nstates": n}}
